@@ -60,3 +60,54 @@ Lemma prio_values_ordered : gen_prio_value PHigh < gen_prio_value PDefault /\ ge
 Proof. split; vm_compute; reflexivity. Qed.
 Lemma step_prio_high : gen_step_prio = PHigh.
 Proof. reflexivity. Qed.
+
+(* ---- the clock never moves backwards over a history whose run horizons are not before the clock ---- *)
+Lemma do_sched_time' : forall cfg st k t p tag h body st' rc,
+  do_sched cfg st k t p tag h body = (st', rc) -> s_time st' = s_time st.
+Proof.
+  intros cfg st k t p tag h body st' rc H.
+  destruct (do_sched_rc _ _ _ _ _ _ _ _ _ _ H) as [Hr|Hr].
+  - subst rc. destruct (do_sched_accepted _ _ _ _ _ _ _ _ _ H) as [e He]. intuition.
+  - assert (Hne : rc <> R_OK) by (destruct Hr as [Hr|[Hr|Hr]]; subst rc; discriminate).
+    destruct (do_sched_rejected _ _ _ _ _ _ _ _ _ _ H Hne) as [Ht _]. exact Ht.
+Qed.
+
+Lemma run_next_time_mono : forall cfg st st' l, inv st -> run_next cfg st = (st', l) -> s_time st <= s_time st'.
+Proof.
+  intros cfg st st' l Hi H. unfold run_next in H.
+  destruct (pop_event (s_events st)) as [[e rest]|] eqn:Ep.
+  - destruct (inv_pop _ _ _ Hi Ep) as [_ [Ht _]].
+    rewrite (exec_event_time _ _ _ _ _ H). exact Ht.
+  - inversion H; subst. destruct st; cbn. apply Z.le_refl.
+Qed.
+
+Lemma step_op_time_mono : forall cfg fuel st o st' ob l, inv st -> op_ok st o ->
+  step_op cfg fuel st o = (st', ob, l) -> s_time st <= s_time st'.
+Proof.
+  intros cfg fuel st o st' ob l Hi Hok H. destruct o; cbn [step_op] in H; cbn [op_ok] in Hok.
+  - destruct (do_sched cfg st k t p tag holder body) as [s1 rc] eqn:E. inversion H; subst.
+    rewrite (do_sched_time' _ _ _ _ _ _ _ _ _ _ E). apply Z.le_refl.
+  - inversion H; subst. destruct st; cbn. apply Z.le_refl.
+  - inversion H; subst. destruct st; cbn. apply Z.le_refl.
+  - destruct (run_loop cfg fuel t st) as [[s1 l1] ok] eqn:E. inversion H; subst.
+    apply (run_loop_time_mono _ _ _ _ _ _ _ Hi Hok E).
+  - destruct (run_loop cfg fuel (s_time st + d) st) as [[s1 l1] ok] eqn:E. inversion H; subst.
+    assert (Hle : s_time st <= s_time st + d) by lia.
+    apply (run_loop_time_mono _ _ _ _ _ _ _ Hi Hle E).
+  - destruct (run_next cfg st) as [s1 l1] eqn:E. inversion H; subst.
+    apply (run_next_time_mono _ _ _ _ Hi E).
+  - destruct (s_events st); inversion H; subst; apply Z.le_refl.
+Qed.
+
+Lemma history_time_mono : forall cfg fuel ops st, inv st -> ops_ok cfg fuel st ops ->
+  s_time st <= s_time (final cfg fuel st ops).
+Proof.
+  intros cfg fuel ops. induction ops as [|o r IH]; intros st Hi Hok; unfold final; cbn [run_state].
+  - cbn. apply Z.le_refl.
+  - cbn [ops_ok] in Hok. destruct Hok as [Ho Hr].
+    destruct (step_op cfg fuel st o) as [[s1 ob] l1] eqn:E1. cbn [fst] in Hr.
+    destruct (run_state cfg fuel s1 r) as [s2 l2] eqn:E2. cbn [fst].
+    pose proof (step_op_time_mono _ _ _ _ _ _ _ Hi Ho E1) as H1.
+    pose proof (IH s1 (inv_step_op _ _ _ _ _ _ _ Hi E1) Hr) as H2.
+    unfold final in H2. rewrite E2 in H2. cbn [fst] in H2. lia.
+Qed.
